@@ -78,7 +78,8 @@ M = [
   "            if section is None and secname.startswith('.debug_'):\n", "            if section is None and secname.startswith('.debug_') and self.has_section('.zdebug_info'):\n", 'detect'),
  ('C09-dynstr-section-preferred', 'C09', 'elftools/elf/dynamic.py',
   "        _, table_offset = self.get_table_offset('DT_STRTAB')\n        if table_offset is not None:\n",
-  "        _, table_offset = self.get_table_offset('DT_STRTAB')\n        if table_offset is not None and self._num_tags == -1:\n", 'detect'),
+  "        _, table_offset = self.get_table_offset('DT_STRTAB')\n        if table_offset is not None and self._num_tags == -1:\n", 'preserve'),
+ # ^ an equivalent mutant, kept as a preserving edit: every path that sets _num_tags builds a DynamicTag first, which fetches (and caches) the string table
  ('C09-symbol-entry-size', 'C09', 'elftools/elf/dynamic.py',
   "            stream_pos=tab_offset + index * self._symbol_size)\n", "            stream_pos=tab_offset + index * (self._symbol_size if index < 64 else 16))\n", 'detect'),
  ('C09-gnuhash-count-trusted', 'C09', 'elftools/elf/dynamic.py',
